@@ -21,6 +21,11 @@ pub struct Snap {
 /// (clause, key, message)
 pub type Bad = (String, String, String);
 
+/// Set equality of resource sets (the representation is not canonical).
+pub fn rs_eq(a: &ResourceSet, b: &ResourceSet) -> bool {
+    a.contains(b) && b.contains(a)
+}
+
 pub fn bad(clause: &str, key: &str, msg: String) -> Bad {
     (clause.to_string(), key.to_string(), msg)
 }
@@ -539,7 +544,7 @@ pub fn check_delegation_converged(sim: &Sim) -> Result<usize, Bad> {
                     ));
                 }
                 for c in &issued {
-                    if c.3 != expected {
+                    if !rs_eq(&c.3, &expected) {
                         return Err(bad(
                             "c02-exactness",
                             "resources",
@@ -549,7 +554,7 @@ pub fn check_delegation_converged(sim: &Sim) -> Result<usize, Bad> {
                 }
                 // the child holds exactly that certificate
                 let ck = child_keys.iter().find(|k| k.0 == current[0].1).unwrap();
-                if ck.2 != expected {
+                if !rs_eq(&ck.2, &expected) {
                     return Err(bad(
                         "c02-child-view",
                         "resources",
